@@ -78,3 +78,5 @@ func verifBareConn(cfg *Config, isClient bool) *Conn {
 // cipher suites (the datagram stack's empty cookie vector)
 const vhsHeaderLen = 12
 const vhsHelloExtra = 1
+
+func verifMarkComplete(c *Conn) { c.hsState.Store(int32(stateFinished)) }
